@@ -221,8 +221,8 @@ static inline void vf_mask_long_payloads(const vf_doc *d, uint8_t *mask)
     }
 }
 #define VF_LNAME128 "mmmmmmmmmmmmmmmmmmmmmmmmmmmmmmmmmmmmmmmmmmmmmmmmmmmmmmmmmmmmmmmmmmmmmmmmmmmmmmmmmmmmmmmmmmmmmmmmmmmmmmmmmmmmmmmmmmmmmmmmmmmmmmmmmmmmmmmm"
-/* a<b< 128-byte name: the third one needs a 2-byte length prefix */
-static const vf_name vf_names_abL[] = { { (const uint8_t *) "a", 1 }, { (const uint8_t *) "b", 1 }, { (const uint8_t *) VF_LNAME128, 128 } };
+/* a < b < 127-byte name < 128-byte name: the last one needs a 2-byte length prefix, the third is the longest with a 1-byte prefix */
+static const vf_name vf_names_abL[] = { { (const uint8_t *) "a", 1 }, { (const uint8_t *) "b", 1 }, { (const uint8_t *) VF_LNAME128, 127 }, { (const uint8_t *) VF_LNAME128, 128 } };
 
 /* a < b < 32768-byte name: the third one needs a 4-byte length prefix */
 static uint8_t vf_hname32k[32768];
